@@ -151,6 +151,11 @@ func (ev *evaluator) pathD(v ssa.Value, d int) string {
 		if x.Op == token.MUL {
 			switch a := x.X.(type) {
 			case *ssa.FieldAddr:
+				if al, ok := a.X.(*ssa.Alloc); ok {
+					if val := singleStore(al); val != nil {
+						return ev.pathD(val, d+1) + "." + fieldName(a)
+					}
+				}
 				return ev.pathD(a.X, d+1) + "." + fieldName(a)
 			case *ssa.IndexAddr:
 				return ev.pathD(a.X, d+1) + "[" + ev.idxString(a.Index) + "]"
